@@ -60,7 +60,22 @@ static void internAttrs()
 #ifndef C08_FROMLEN
 #define C08_FROMLEN 3
 #endif
-// <iq type id from?> with 0..2 child elements; child i = <tag xmlns=ns/> with tag/ns picked from the tables
+// child-element shapes of the incoming iq (payload = first child; "IQs must have only one child element", but a second one may follow)
+struct Shape { unsigned nch, tag0, ns0, tag1, ns1; };
+enum { SH_NONE, SH_PING, SH_VERSION, SH_TIME, SH_DISCO_INFO, SH_DISCO_ITEMS, SH_VCARD, SH_ROSTER,
+       SH_QUERY_NONS,                 // <query/> without own namespace (inherits jabber:client)
+       SH_VCARD_IN_VERSION_NS, SH_TIME_IN_VCARD_NS, SH_QUERY_IN_TIME_NS, SH_PING_IN_DISCO_NS, SH_PING_IN_ROSTER_NS,   // right namespace, wrong tag
+       SH_PING_THEN_VERSION, SH_PING_THEN_TIME, SH_PING_THEN_DISCO, SH_PING_THEN_VCARD, SH_PING_THEN_ROSTER,         // payload only in second place
+       NSHAPE };
+static constexpr Shape SHAPES[NSHAPE] = {
+    { 0, NTAG, NNS, NTAG, NNS }, { 1, TAG_PING, NS_PING, NTAG, NNS }, { 1, TAG_QUERY, NS_VERSION, NTAG, NNS }, { 1, TAG_TIME, NS_TIME, NTAG, NNS },
+    { 1, TAG_QUERY, NS_DISCO_INFO, NTAG, NNS }, { 1, TAG_QUERY, NS_DISCO_ITEMS, NTAG, NNS }, { 1, TAG_VCARD, NS_VCARD, NTAG, NNS }, { 1, TAG_QUERY, NS_ROSTER, NTAG, NNS },
+    { 1, TAG_QUERY, NS_NONE, NTAG, NNS },
+    { 1, TAG_VCARD, NS_VERSION, NTAG, NNS }, { 1, TAG_TIME, NS_VCARD, NTAG, NNS }, { 1, TAG_QUERY, NS_TIME, NTAG, NNS }, { 1, TAG_PING, NS_DISCO_INFO, NTAG, NNS }, { 1, TAG_PING, NS_ROSTER, NTAG, NNS },
+    { 2, TAG_PING, NS_PING, TAG_QUERY, NS_VERSION }, { 2, TAG_PING, NS_PING, TAG_TIME, NS_TIME }, { 2, TAG_PING, NS_PING, TAG_QUERY, NS_DISCO_INFO },
+    { 2, TAG_PING, NS_PING, TAG_VCARD, NS_VCARD }, { 2, TAG_PING, NS_PING, TAG_QUERY, NS_ROSTER },
+};
+// <iq type id from?> with 0..2 child elements
 struct SymIq {
     QDomElement iq;
     unsigned ty; QString type, id, from; bool hasFrom;
@@ -70,31 +85,35 @@ struct SymIq {
     unsigned effNs(int i) const { return ns[i] == NS_NONE ? unsigned(NS_CLIENT) : ns[i]; }
     bool firstIs(unsigned t, unsigned n) const { return nch >= 1 && tag[0] == t && effNs(0) == n; }
 };
-// ty: TY_GET / TY_SET are fixed by the caller (one switch branch each, see DISPATCH); ty >= TY_RESULT means "no request" and is
-// chosen here among result / error / empty / garbage (string content symbolic, one block).  hasFrom: attribute present (possibly empty).
-static void symIq(SymIq &q, unsigned ty, bool hasFrom, unsigned maxChildren, const QString &iqTag = L("iq"))
+// Structure (IQ type class, child shape, from present) is fixed by the caller: one switch branch per combination (see DISPATCH),
+// so that element names, namespaces and the type keyword are constants for symbolic execution inside a branch.  Symbolic per
+// branch: id, from, and for TY_GARBAGE the 1..6 arbitrary units of the type attribute.
+static void symIq(SymIq &q, unsigned ty, unsigned shape, bool hasFrom, const QString &iqTag = L("iq"))
 {
+    const Shape &sh = SHAPES[shape];
     q.iq = el(iqTag, L("jabber:client"));
-    if (ty >= TY_RESULT) { ty = vp_u8(); vp_assume(ty >= TY_RESULT && ty < NTY); }   // all types that are no request share one branch: symbolic content
     q.ty = ty;
     vp_c08_pick_type(&q.type, q.ty);
     if (q.ty == TY_GARBAGE) vp_assume(!(q.type == L("get")) && !(q.type == L("set")) && !(q.type == L("result")) && !(q.type == L("error")));
     attr(q.iq, L("type"), q.type);
     q.id = vpSymString(C08_IDLEN); attr(q.iq, L("id"), q.id);
     q.hasFrom = hasFrom;
-    q.from = vpSymString(C08_FROMLEN);
-    if (hasFrom) attr(q.iq, L("from"), q.from); else q.from = QString();
+    if (hasFrom) { q.from = vpSymString(C08_FROMLEN); attr(q.iq, L("from"), q.from); }
+    q.nch = sh.nch; q.tag[0] = sh.tag0; q.ns[0] = sh.ns0; q.tag[1] = sh.tag1; q.ns[1] = sh.ns1;
     for (unsigned i = 0; i < 2; i++) {
-        if (i >= maxChildren) { q.tag[i] = NTAG; q.ns[i] = NNS; continue; }
-        q.tag[i] = vp_u8(); vp_assume(q.tag[i] < NTAG);
-        q.ns[i] = vp_u8(); vp_assume(q.ns[i] < NNS);
+        if (i >= q.nch) break;
         QString t, n; vp_c08_pick_tag(&t, q.tag[i]); vp_c08_pick_ns(&n, q.ns[i]);
         QDomElement c = el(t, n);
         vp_dom_append(&q.iq, &c);
     }
-    q.nch = vp_u8(); vp_assume(q.nch <= maxChildren);
-    vp_c08_dom_truncate(&q.iq, q.nch);
 }
+// dispatch over 6 type classes x 8 shapes (K = index into a per-harness shape list): every combination is its own template
+// instance (the optimiser must not merge the calls into one with a variable argument) on its own branch of one switch over a
+// nondeterministic selector; the solver decides all branches in one query.
+#define C08_SH8(f, t) case t * 8 + 0: f<t, 0>(); break; case t * 8 + 1: f<t, 1>(); break; case t * 8 + 2: f<t, 2>(); break; case t * 8 + 3: f<t, 3>(); break; \
+                      case t * 8 + 4: f<t, 4>(); break; case t * 8 + 5: f<t, 5>(); break; case t * 8 + 6: f<t, 6>(); break; case t * 8 + 7: f<t, 7>(); break;
+#define DISPATCH_REQ(f) do { unsigned c_ = vp_u8(); vp_assume(c_ < 16); switch (c_) { C08_SH8(f, 0) C08_SH8(f, 1) default: break; } } while (0)
+#define DISPATCH_RESP(f) do { unsigned c_ = vp_u8(); vp_assume(c_ >= 16 && c_ < 48); switch (c_) { C08_SH8(f, 2) C08_SH8(f, 3) C08_SH8(f, 4) C08_SH8(f, 5) default: break; } } while (0)
 
 // ------------------------------------------------------------------------------------------------ oracle
 // reply i is <iq type='result'|'error' id=ID to=FROM/>
